@@ -24,17 +24,20 @@ BOUNDS = {
               'query': 'per key: absent or a symbolic value; include/exclude: any subsets of the pool + a key no item has + the data key (single operations and merges; not in the two-query chains)',
               'merge': 'right operand with 1 item, or item-less but carrying global variables',
               'chains': 'single operation (filter_by, select_by, merge, keys/available_values)',
-              'long lists': '10 items, one key with two concrete values, every subset of matching items (order of the selection)'},
+              'long lists': '10 items, one key with two concrete values, every subset of matching items (order of the selection)',
+              'three keywords': "2 items over the pool {'a','b','c'}, queries with up to three keyword criteria (no include / exclude)",
+              'position key': "queries on the position key 'index' (filter_by, select_by, available_values) on a 3-item browser, on every filter of it and on merges of the filter with a 1-item browser, either way round"},
     'thorough': {'items': '<= 4 (3 for chains)', 'metadata keys': "pool {'a','b'} (+ data key, + reserved 'index')",
                  'values': 'arbitrary hashable (symbolic, equality only)', 'data_key': ["'results'", "'d'"],
                  'query': 'as quick', 'chains': 'filter_by then filter_by / merge / select_by (2 steps)',
-                 'long lists': '10 and 13 items, one key with two concrete values, every subset of matching items'},
+                 'long lists': '10 and 13 items, one key with two concrete values, every subset of matching items',
+                 'three keywords': "2 and 3 items over the pool {'a','b','c'}, up to three keyword criteria",
+                 'position key': "as quick, also with the pool {'a','b'}"},
 }
-ASSUMPTIONS = ["metadata values are modelled by SKey: constant hash, symbolic ==; the reserved key 'index' is not used as metadata",
+ASSUMPTIONS = ["metadata values are modelled by SKey: constant hash, symbolic ==; the reserved key 'index' is not used as USER metadata (queries on it are covered)",
                'data objects are unhashable lists (as real datasets are), identity is what is compared',
                'counterexamples are replayed with small integers as values']
-OUTSIDE = ['more than 4 items with symbolic values / 2 metadata keys; more than 13 items with concrete values', 'values whose == is not an equivalence relation',
-           "queries on the reserved key 'index'"]
+OUTSIDE = ['more than 4 items with symbolic values / 3 metadata keys; more than 13 items with concrete values', 'values whose == is not an equivalence relation']
 EXPLANATION = ('bounded symbolic execution (symrun + z3) of the real Browser/Index code with symbolic-equality keys; '
                'result items, order, data identity, globals, data_key, exceptions and immutability decided per path')
 
@@ -65,6 +68,8 @@ def _query(ex, tag='q'):
             kw[k] = ex.key(f'{tag}{k}')
     dk = [DATA_KEY] if WITH_DATA_KEY else []      # (not in the two-query chains: path budget)
     extra = POOL + ['zz'] + dk          # a key no item has, and the data key (which every item has)
+    if INCEXC == 'none':
+        return kw, (), ()
     if INCEXC == 'full':
         inc = tuple(k for k in extra if ex.flag(f'{tag}inc{k}'))
         exc = tuple(k for k in extra if ex.flag(f'{tag}exc{k}'))
@@ -257,6 +262,38 @@ def make_harness(n, data_key, mode, n2=1, pool='ab', incexc='full', globs_on=Fal
             sub = mg.filter_by(include=inc, exclude=exc, **kw)
             match = _naive([dict(it) for it in items + items2], kw, inc, exc)
             _check_sub(ex, sub, [dict(it) for it in items + items2], match, data_key, wg, 'merge-then-filter_by')
+        elif mode == 'index':
+            # the documented position key 'index' ("to keep track of the order of the list and being able to do selection on
+            # it"): in EVERY browser -- built from a list, obtained from a filter, obtained from a merge -- a query on position k
+            # returns exactly the k-th item of that browser, and the positions on offer are 0..len-1
+            def positions_ok(b, want_items, lab):
+                good = isinstance(b, Browser) and len(b.content) == len(want_items)
+                if good:
+                    good = tuple(sorted(b.available_values('index'))) == tuple(range(len(want_items)))
+                    for k, w in enumerate(want_items):
+                        if b.content[k].get('index') != k:
+                            good = False
+                        got = b.filter_by(index=k).content
+                        if len(got) != 1 or got[0][data_key] is not w[data_key]:
+                            good = False
+                        try:
+                            one = b.select_by(index=k)
+                            if one[data_key] is not w[data_key]:
+                                good = False
+                        except (NoItemBrowserError, TooManyItemsBrowserError):
+                            good = False
+                    if len(b.filter_by(index=len(want_items)).content) != 0:
+                        good = False
+                ex.check(good, lab)
+            positions_ok(br, src, 'index:positions-of-a-browser-built-from-a-list')
+            kw, inc, exc = _query(ex)
+            sub = br.filter_by(include=inc, exclude=exc, **kw)
+            kept = [it for it, m in zip(src, _naive(src, kw, inc, exc)) if _decided(m)]
+            positions_ok(sub, kept, 'index:positions-of-a-filtered-browser')
+            items2, _d2 = _mk_items(ex, n2, data_key, tag='j')
+            br2 = Browser(items2, data_key=data_key)
+            positions_ok(sub.merge(br2), kept + items2, 'index:positions-of-a-merged-browser')
+            positions_ok(br2.merge(sub), items2 + kept, 'index:positions-of-a-merged-browser-(filtered-operand-last)')
         elif mode == 'chain':
             kw, inc, exc = _query(ex, 'q')
             sub = br.filter_by(include=inc, exclude=exc, **kw)
@@ -294,7 +331,8 @@ def jobs(tier):
                 (0, 'filter', 'ab', 'full'), (1, 'filter', 'ab', 'full'), (2, 'filter', 'ab', 'few'),
                 (3, 'filter', 'a', 'few'), (0, 'select', 'ab', 'few'), (2, 'select', 'ab', 'few'),
                 (3, 'select', 'a', 'few'), (1, 'merge', 'ab', 'few'), (2, 'merge', 'a', 'few'), (2, 'chain', 'a', 'few'),
-                (10, 'long', 'a', 'few'), (0, 'merge0', 'a', 'few'), (1, 'merge0', 'a', 'few')]
+                (10, 'long', 'a', 'few'), (0, 'merge0', 'a', 'few'), (1, 'merge0', 'a', 'few'),
+                (2, 'filter', 'abc', 'none'), (2, 'select', 'abc', 'none'), (3, 'index', 'a', 'none')]
     else:
         plan = [(0, 'keys', 'ab', 'full'), (2, 'keys', 'ab', 'full'), (3, 'keys', 'ab', 'full'), (4, 'keys', 'a', 'full'),
                 (0, 'filter', 'ab', 'full'), (1, 'filter', 'ab', 'full'), (2, 'filter', 'ab', 'full'),
@@ -303,7 +341,9 @@ def jobs(tier):
                 (0, 'merge', 'ab', 'few'), (1, 'merge', 'ab', 'few'), (2, 'merge', 'ab', 'few'), (2, 'merge', 'a', 'few'),
                 (3, 'merge', 'a', 'few'),
                 (2, 'chain', 'ab', 'few'), (3, 'chain', 'a', 'few'), (10, 'long', 'a', 'few'), (13, 'long', 'a', 'few'),
-                (0, 'merge0', 'a', 'few'), (1, 'merge0', 'ab', 'few'), (2, 'merge0', 'a', 'few')]
+                (0, 'merge0', 'a', 'few'), (1, 'merge0', 'ab', 'few'), (2, 'merge0', 'a', 'few'),
+                (2, 'filter', 'abc', 'none'), (3, 'filter', 'abc', 'none'), (2, 'select', 'abc', 'none'),
+                (3, 'index', 'a', 'none'), (3, 'index', 'ab', 'none')]
     for i, (n, mode0, pool, ie) in enumerate(plan):
         for dk in ('results', 'd'):
             mode = mode0
